@@ -1188,3 +1188,215 @@ Theorem lz4_sizes cd body :
   | Err b => compress_append cd Lz4 body = Err (ErrBodyTooLong b)
   end.
 Proof. unfold size_outcome. cbn [compress_append]. destruct (blen body <? 4294967296); reflexivity. Qed.
+
+(* ---------- PART 3: rows bound to columns ---------- *)
+Section RowProofs.
+  Variables V T : Type.
+  Variable vser : V -> T -> option cell.
+  Notation row := (row V).
+  Notation ser_columns := (ser_columns V T vser).
+  Notation ser_by_name := (ser_by_name V T vser).
+  Notation bind_row := (bind_row V T vser).
+  Notation row_serialize := (row_serialize V T vser).
+  Notation row_binds := (row_binds V T vser).
+
+  Lemma ser_columns_ok cols : forall vs cells,
+    List.length cols = List.length vs -> ser_columns cols vs = Ok cells ->
+    List.length cells = List.length cols /\
+    forall i name t, nth_error cols i = Some (name, t) ->
+      exists v c, nth_error vs i = Some v /\ vser v t = Some c /\ nth_error cells i = Some c.
+  Proof.
+    induction cols as [|[n0 t0] cs IH]; intros vs cells Hl H.
+    - destruct vs; [|discriminate]. cbn in H. apply ok_inj in H. subst cells.
+      split; [reflexivity|]. intros [|i] ? ? Hn; discriminate.
+    - destruct vs as [|v r]; [discriminate|]. cbn [List.length] in Hl. cbn [Request.ser_columns] in H.
+      destruct (vser v t0) as [c|] eqn:Ev; [|discriminate].
+      destruct (ser_columns cs r) as [l|] eqn:Er; [|discriminate].
+      apply ok_inj in H. subst cells.
+      destruct (IH r l) as [IL IN]; [lia|exact Er|]. split; [cbn [List.length]; lia|].
+      intros [|i] name t Hn; cbn [nth_error] in *.
+      + injection Hn as <- <-. eauto.
+      + exact (IN i name t Hn).
+  Qed.
+
+  Lemma ser_by_name_ok kvs cols : forall cells,
+    ser_by_name kvs cols = Ok cells ->
+    List.length cells = List.length cols /\
+    forall i name t, nth_error cols i = Some (name, t) ->
+      exists v c, assoc V name kvs = Some v /\ vser v t = Some c /\ nth_error cells i = Some c.
+  Proof.
+    induction cols as [|[n0 t0] cs IH]; intros cells H; cbn [Request.ser_by_name] in H.
+    - apply ok_inj in H. subst cells. split; [reflexivity|]. intros [|i] ? ? Hn; discriminate.
+    - destruct (assoc V n0 kvs) as [v|] eqn:Ea; [|discriminate].
+      destruct (vser v t0) as [c|] eqn:Ev; [|discriminate].
+      destruct (ser_by_name kvs cs) as [l|] eqn:Er; [|discriminate].
+      apply ok_inj in H. subst cells. destruct (IH l eq_refl) as [IL IN].
+      split; [cbn [List.length]; lia|].
+      intros [|i] name t Hn; cbn [nth_error] in *.
+      + injection Hn as <- <-. eauto.
+      + exact (IN i name t Hn).
+  Qed.
+
+  Lemma min_bytes_none l : min_bytes l = None -> l = [].
+  Proof. destruct l as [|x r]; [reflexivity|]. cbn. destruct (min_bytes r); discriminate. Qed.
+  Lemma min_bytes_some l : l <> [] -> exists m, min_bytes l = Some m.
+  Proof. destruct l as [|x r]; [congruence|]. intros _. cbn. destruct (min_bytes r); eauto. Qed.
+  Lemma filter_nil {A} (f : A -> bool) l : filter f l = [] -> forall x, In x l -> f x = false.
+  Proof.
+    induction l as [|a l IH]; cbn; [tauto|]. destruct (f a) eqn:E; [discriminate|].
+    intros H x [<-|Hx]; auto.
+  Qed.
+
+  Theorem bind_row_ok cols r cells : bind_row cols r = Ok cells ->
+    row_binds cols r cells /\ row_complete V T cols r /\ N.of_nat (List.length cells) < 65536.
+  Proof.
+    unfold Request.bind_row. destruct (row_serialize cols r) as [l|] eqn:Es; [|discriminate].
+    destruct (N.of_nat (List.length l) <? 65536) eqn:El; [|discriminate]. intros H.
+    apply ok_inj in H. subst l. apply N.ltb_lt in El.
+    assert (G : row_binds cols r cells /\ row_complete V T cols r); [|tauto].
+    destruct r as [|vs|kvs]; cbn [Request.row_serialize] in Es.
+    - destruct cols; [|discriminate]. apply ok_inj in Es. subst cells.
+      split; [|exact I]. split; [reflexivity|]. intros [|i] ? ? Hn; discriminate.
+    - destruct (List.length cols =? List.length vs)%nat eqn:E; [|discriminate].
+      apply Nat.eqb_eq in E. destruct (ser_columns_ok cols vs cells E Es) as [L N].
+      split; [split; [exact L|exact N]|]. cbn. lia.
+    - destruct (ser_by_name kvs cols) as [l|] eqn:Eb; [|discriminate].
+      destruct (min_bytes _) eqn:Em; [discriminate|]. apply ok_inj in Es. subst l.
+      destruct (ser_by_name_ok kvs cols cells Eb) as [L N].
+      split; [split; [exact L|exact N]|].
+      cbn. intros k Hk. apply min_bytes_none in Em.
+      pose proof (filter_nil _ _ Em k Hk) as F. apply negb_false_iff in F. exact F.
+  Qed.
+
+  (* the converse: whenever every bind marker gets a serialisable value, nothing supplied is left
+     over and there are at most 65535 markers, the row binds *)
+  Definition row_good (cols : list (bytes * T)) (r : row) : Prop :=
+    row_complete V T cols r /\
+    (forall i name t, nth_error cols i = Some (name, t) ->
+       exists v c, supplied V r i name = Some v /\ vser v t = Some c) /\
+    N.of_nat (List.length cols) < 65536.
+
+  Lemma ser_columns_total cols : forall vs, List.length cols = List.length vs ->
+    (forall i name t, nth_error cols i = Some (name, t) ->
+       exists v c, nth_error vs i = Some v /\ vser v t = Some c) ->
+    exists cells, ser_columns cols vs = Ok cells.
+  Proof.
+    induction cols as [|[n0 t0] cs IH]; intros vs Hl H.
+    - destruct vs; cbn; eauto.
+    - destruct vs as [|v r]; [discriminate|]. cbn [List.length] in Hl. cbn [Request.ser_columns].
+      destruct (H 0%nat n0 t0 eq_refl) as (v' & c & Hv & Hc). cbn in Hv. injection Hv as <-. rewrite Hc.
+      destruct (IH r) as [l ->]; [lia| |eauto].
+      intros i name t Hn. exact (H (S i) name t Hn).
+  Qed.
+  Lemma ser_by_name_total kvs cols :
+    (forall i name t, nth_error cols i = Some (name, t) ->
+       exists v c, assoc V name kvs = Some v /\ vser v t = Some c) ->
+    exists cells, ser_by_name kvs cols = Ok cells.
+  Proof.
+    induction cols as [|[n0 t0] cs IH]; intros H; cbn [Request.ser_by_name]; [eauto|].
+    destruct (H 0%nat n0 t0 eq_refl) as (v & c & -> & ->).
+    destruct IH as [l ->]; [|eauto]. intros i name t Hn. exact (H (S i) name t Hn).
+  Qed.
+
+  Theorem bind_row_total cols r : row_good cols r -> exists cells, bind_row cols r = Ok cells.
+  Proof.
+    intros (Hc & Hs & Hn).
+    assert (G : exists cells, row_serialize cols r = Ok cells /\ List.length cells = List.length cols).
+    { destruct r as [|vs|kvs]; cbn [Request.row_serialize].
+      - destruct cols as [|[n0 t0] cs]; [eauto|].
+        destruct (Hs 0%nat n0 t0 eq_refl) as (v & c & Hv & _). discriminate.
+      - cbn in Hc. rewrite Hc, Nat.eqb_refl.
+        destruct (ser_columns_total cols vs (eq_sym Hc) Hs) as [cells E]. exists cells. split; [exact E|].
+        apply (ser_columns_ok cols vs cells (eq_sym Hc) E).
+      - destruct (ser_by_name_total kvs cols Hs) as [cells E]. rewrite E.
+        cbn in Hc.
+        assert (F : filter (fun k => negb (col_named T cols k)) (map fst kvs) = []).
+        { clear -Hc. induction (map fst kvs) as [|k l IH]; [reflexivity|]. cbn.
+          rewrite (Hc k (or_introl eq_refl)). cbn. apply IH. intros x Hx. apply Hc. right. exact Hx. }
+        rewrite F. cbn. exists cells. split; [reflexivity|]. apply (ser_by_name_ok kvs cols cells E). }
+    destruct G as (cells & E & L). unfold Request.bind_row. rewrite E, L.
+    apply N.ltb_lt in Hn. rewrite Hn. eauto.
+  Qed.
+
+  (* refusals, by class *)
+  Theorem bind_row_count_mismatch cols vs : List.length vs <> List.length cols ->
+    bind_row cols (RSeq vs) = Err (WrongColumnCount (N.of_nat (List.length vs)) (N.of_nat (List.length cols))).
+  Proof.
+    intros H. unfold Request.bind_row. cbn [Request.row_serialize].
+    destruct (List.length cols =? List.length vs)%nat eqn:E; [apply Nat.eqb_eq in E; congruence|reflexivity].
+  Qed.
+  Theorem bind_row_unit_nonempty c cols :
+    bind_row (c :: cols) RUnit = Err (WrongColumnCount 0 (N.of_nat (S (List.length cols)))).
+  Proof. reflexivity. Qed.
+End RowProofs.
+
+Theorem values_in_frame V T vser cols r cells cd alg tr id m p f :
+  bind_row V T vser cols r = Ok cells -> qp_values p = cells -> qparams_wf p ->
+  encode_request cd None tr (Execute id m p) = Ok f ->
+  exists h p', parse_frame cd alg (is_some m) f = Ok (h, Execute id m p') /\
+               row_binds V T vser cols r (qp_values p') /\ row_complete V T cols r.
+Proof.
+  intros Hb Hv Hw He.
+  pose proof (parse_encode cd alg tr (Execute id m p) f (is_some m) Hw eq_refl He) as P.
+  destruct (bind_row_ok V T vser cols r cells Hb) as (B & C & _).
+  eexists. exists p. split; [exact P|]. rewrite Hv. split; assumption.
+Qed.
+
+(* ---------- the 2^31 boundaries ---------- *)
+Lemma frame_of_body cd tr r body : serialize_request r = Ok body -> blen body < 4294967296 ->
+  exists f, encode_request cd None tr r = Ok f /\ blen f = 9 + blen body.
+Proof.
+  intros Hs Hl. unfold encode_request. rewrite Hs, (make_frame_small _ _ body Hl).
+  eexists. split; [reflexivity|apply blen_frame_bytes].
+Qed.
+
+Theorem int_boundary cd k x :
+  match big_outcome k (blen x) with
+  | Ok b => exists f, encode_request cd None false (big_request k x) = Ok f /\ blen f = 9 + b
+  | Err e => encode_request cd None false (big_request k x) = Err e
+  end.
+Proof.
+  unfold big_outcome. destruct (blen x <? 2147483648) eqn:E.
+  - apply N.ltb_lt in E.
+    destruct k; cbn [big_request big_body_len].
+    + assert (S : serialize_request (Prepare x) = Ok (be 4 (blen x) ++ x)).
+      { cbn [serialize_request]. unfold write_long_string, write_int_length.
+        apply N.ltb_lt in E. rewrite E. reflexivity. }
+      destruct (frame_of_body cd false _ _ S) as (f & Hf & Hl); [rewrite blen_app, blen_be; lia|].
+      exists f. split; [exact Hf|]. rewrite Hl, blen_app, blen_be. lia.
+    + assert (S : serialize_request (Query x (plain_params []))
+                  = Ok ((be 4 (blen x) ++ x) ++ write_short (cons_code One) ++ [0])).
+      { cbn [serialize_request plain_params qp_values]. unfold mk_values. cbn [ser_cells List.length].
+        change (N.of_nat 0 <? 65536) with true. cbv iota.
+        unfold write_long_string, write_int_length. apply N.ltb_lt in E. rewrite E. reflexivity. }
+      destruct (frame_of_body cd false _ _ S) as (f & Hf & Hl).
+      * rewrite !blen_app, blen_be. unfold write_short. rewrite blen_be. rewrite ?blen_cons, ?blen_nil. lia.
+      * exists f. split; [exact Hf|]. rewrite Hl, !blen_app, blen_be. unfold write_short. rewrite blen_be.
+        rewrite ?blen_cons, ?blen_nil. lia.
+    + assert (S : serialize_request (AuthResponse (Some x)) = Ok (be 4 (blen x) ++ x)).
+      { cbn [serialize_request write_bytes_opt]. unfold write_int_length. apply N.ltb_lt in E. rewrite E. reflexivity. }
+      destruct (frame_of_body cd false _ _ S) as (f & Hf & Hl); [rewrite blen_app, blen_be; lia|].
+      exists f. split; [exact Hf|]. rewrite Hl, blen_app, blen_be. lia.
+    + assert (S : serialize_request (Query [] (plain_params [CVal x]))
+                  = Ok (be 4 0 ++ (write_short (cons_code One) ++ [1]) ++ be 2 1 ++ (be 4 (blen x) ++ x) ++ [])).
+      { cbn [serialize_request plain_params qp_values]. unfold mk_values. cbn [ser_cells ser_cell].
+        apply N.ltb_lt in E. rewrite E. cbn [List.length].
+        change (N.of_nat 1 <? 65536) with true. cbv iota. reflexivity. }
+      destruct (frame_of_body cd false _ _ S) as (f & Hf & Hl).
+      * rewrite !blen_app, !blen_be. unfold write_short. rewrite blen_be. rewrite ?blen_cons, ?blen_nil. lia.
+      * exists f. split; [exact Hf|]. rewrite Hl, !blen_app, !blen_be. unfold write_short. rewrite blen_be.
+        rewrite ?blen_cons, ?blen_nil. lia.
+    + pose proof (uniform_batch cd x 1 E) as U. unfold uniform_batch_outcome, size_outcome in U.
+      assert (B : batch_body_len (N.of_nat 1) (blen x) < 4294967296) by (unfold batch_body_len; lia).
+      apply N.ltb_lt in B. rewrite B in U. destruct U as (f & Hf & Hl & _); [cbn; lia|].
+      exists f. split; [exact Hf|exact Hl].
+  - destruct k; cbn [big_request big_err]; unfold encode_request; cbn [serialize_request].
+    + unfold write_long_string, write_int_length. rewrite E. reflexivity.
+    + unfold mk_values. cbn [plain_params qp_values ser_cells List.length].
+      change (N.of_nat 0 <? 65536) with true. cbv iota.
+      unfold write_long_string, write_int_length. rewrite E. reflexivity.
+    + cbn [write_bytes_opt]. unfold write_int_length. rewrite E. reflexivity.
+    + unfold mk_values. cbn [plain_params qp_values ser_cells ser_cell]. rewrite E. reflexivity.
+    + unfold ser_batch. cbn [List.length]. change (N.of_nat 1 <? 65536) with true. cbv iota.
+      cbn [batch_loop ser_stmt]. unfold write_long_string, write_int_length. rewrite E. reflexivity.
+Qed.
